@@ -515,6 +515,8 @@ def classify_replay(rep, case, chan, real, stats):
     if real["ok"] and real["v"]["k"] == "other":
         rep.violation(f"unknown-result:{shape(t, x)}", "the result is not a value of the model", info)
         return
+    if real["exc"]:  # the property does not name the exception class (C03 does); the Alg layer predicts an ArgumentError
+        rep.add_drift(f"rejected with {real['exc']} instead of ArgumentError", info)
     if ref_ok and real["ok"] and not real["pyok"]:
         rep.violation(f"validator:{shape(t, x)}", "the isinstance walk rejects a result that the specification calls conforming", info)
         return
@@ -711,6 +713,7 @@ def main(argv):
             for ch, real in zip(channels(x), outs):
                 if real["exc"]:
                     stats["non_argument_errors"] += 1
+                    rep.add_drift(f"rejected with {real['exc']} instead of ArgumentError", {"type": type_str(t), "x": x, "channel": ch, "python": python_repro(t, x, ch)})
                 if real["ok"] and real["v"]["k"] == "other":
                     rep.violation(f"unknown-result:{shape(t, x)}", "the result is not a value of the model", {"t": t, "x": x, "observed": real})
                     continue
